@@ -197,4 +197,51 @@ def wsMismatches (c : WsCase) : List String :=
     (if !c.grpcws && c.handshake == 101 && !(c.routerHit && c.routeOK) then ["dispatch"] else [])
   | _ => []
 
+
+/-! ## raw TCP cases: request targets without a path, and the client that stops sending -/
+
+/-- One `tcp` case: what the client on the real connection saw, and whether the handler returned while the client
+    was still connected and silent. -/
+structure TcpCase where
+  idle : Bool              -- the client left the request body open and idle (else: a complete raw request)
+  grpcweb : Bool           -- entry point gRPC-Web (else transcoded HTTP) — idle cases only
+  deadline : Bool          -- the call ends by its own grpc-timeout (else the target ends it)
+  script : Script
+  returned : Bool          -- no handler invocation is running any more, within the bound, client still connected
+  status : Nat             -- 0 = no parsable HTTP response arrived within the bound
+  gwct : Bool              -- response content type application/grpc-web*
+  gwFramesOK : Bool        -- body = well-formed gRPC-Web frames, the trailer frame last
+  trailers : Nat
+  grpcStatus : Option Nat
+  bodyDone : Bool          -- the response body ended (terminating chunk / length / close) within the bound
+  streams : Nat
+  deriving Repr
+
+/-- Clauses of the property a raw TCP case violates: the handler must RETURN in bounded time although the client
+    sends nothing more, and the client must get a well-formed answer — gRPC-Web: 200 with exactly one trailer frame
+    (last, with grpc-status); transcoded HTTP: a complete response with a status; a request target without a path
+    is a client error, never 5xx. -/
+def tcpViolations (c : TcpCase) : List String :=
+  (if !c.returned then ["hang handler-holds-on-while-client-idle"] else []) ++
+  (if c.status == 0 then ["no-response-within-bound"] else
+    (if !(200 ≤ c.status && c.status < 600) then ["http-status-out-of-range"] else []) ++
+    (if !c.bodyDone then ["response-body-not-terminated"] else []) ++
+    (if c.gwct then
+      (if c.status != 200 then ["grpcweb-status-not-200"] else []) ++
+      (if !c.gwFramesOK then ["grpcweb-frames-malformed"] else []) ++
+      (if c.trailers != 1 then ["grpcweb-trailer-frames-not-exactly-one"] else []) ++
+      (if c.grpcStatus.isNone then ["grpcweb-no-grpc-status"] else [])
+     else []) ++
+    (if !c.idle && 500 ≤ c.status then ["pathless-target-5xx"] else []))
+
+/-- Model disagreement that is not a violation: the idle gRPC-Web cases must be answered BY the gRPC-Web bridge, with
+    the status the script / the deadline dictates. -/
+def tcpMismatches (c : TcpCase) : List String :=
+  if !c.idle || c.status == 0 then [] else
+  let want : Nat := if c.deadline then 4 else c.script.code.toNat
+  (if c.grpcweb && !c.gwct then ["grpcweb-entry-expected"] else []) ++
+  (if c.grpcweb && c.gwct && c.grpcStatus != some want then [s!"grpc-status-expected-{want}"] else []) ++
+  (if !c.grpcweb && c.status != httpStatusFromCode (if c.deadline then .deadlineExceeded else c.script.code) then
+     [s!"http-status-expected-{httpStatusFromCode (if c.deadline then .deadlineExceeded else c.script.code)}"] else [])
+
 end GB.C17
